@@ -695,6 +695,71 @@ Definition arg_absent (r : oprow) (i : nat) : bool :=
 
 Definition is_nil {A} (l : list A) : bool := match l with [] => true | _ => false end.
 
+(* ---- layers with state: histories ------------------------------------------------------------------------------------ *)
+(* A layer whose forward changes attributes of self (BatchNorm: running_mean / running_var are rebound by the batch_norm
+   wrapper, num_batches_tracked is incremented) is a state machine.  State = TupV of the attributes (sorted names).
+   sl_init : over the constructor arguments -> state;  sl_step : over x :: training :: attributes -> TupV (output :: state'). *)
+Record slrow := mkSL {
+  sl_name : string;
+  sl_ctor : list argspec;
+  sl_init : dexpr;
+  sl_step : dexpr
+}.
+
+Definition comps (st : absval) : list absval := match st with TupV l => l | _ => [] end.
+Definition res_out (v : absval) : absval := projv 0 v.
+Definition res_state (v : absval) : absval := match v with TupV (_ :: s) => TupV s | _ => ErrV end.
+
+Definition sl_init_states (c : cfg) (d d2 : dtype) (r : slrow) : list absval :=
+  deval0 c (map (inst_arg d d2) (sl_ctor r)) (sl_init r).
+Definition sl_step1 (c : cfg) (r : slrow) (x : absval) (tr : bool) (st : absval) : list absval :=
+  deval0 c (x :: PyBool (Some tr) :: comps st) (sl_step r).
+Definition sl_next (c : cfg) (r : slrow) (x : absval) (tr : bool) (S : list absval) : list absval :=
+  vflat (fun st => lift1 res_state (sl_step1 c r x tr st)) S.
+Definition sl_outs (c : cfg) (r : slrow) (x : absval) (tr : bool) (S : list absval) : list absval :=
+  vflat (fun st => lift1 res_out (sl_step1 c r x tr st)) S.
+
+(* a history = the forward calls in order: (training mode?, input); result: the possible outputs of every call and the
+   possible states afterwards *)
+Fixpoint sl_run (c : cfg) (r : slrow) (h : list (bool * absval)) (S : list absval) : list (list absval) * list absval :=
+  match h with
+  | [] => ([], S)
+  | (tr, x) :: t => let res := sl_run c r t (sl_next c r x tr S) in (sl_outs c r x tr S :: fst res, snd res)
+  end.
+
+(* every floating buffer / parameter in the state has dtype d, nothing is ill-typed *)
+Definition good_state (d : dtype) (st : absval) : bool :=
+  match st with
+  | TupV l => forallb (fun v => match v with
+                                | Np dt _ => if is_float dt then dtype_eqb dt d else true
+                                | ErrV | UnboundV => false
+                                | _ => true
+                                end) l
+  | _ => false
+  end.
+
+(* states reachable by train / eval forwards on inputs x *)
+Fixpoint reach_iter (n : nat) (c : cfg) (r : slrow) (x : absval) (S : list absval) : list absval :=
+  match n with
+  | 0 => S
+  | S n' => reach_iter n' c r x (vunion (sl_next c r x true S) (vunion (sl_next c r x false S) S))
+  end.
+
+Definition out_is (d : dtype) (v : absval) : bool := match v with Np d' _ => dtype_eqb d d' | _ => false end.
+
+(* R is closed under both kinds of forward on inputs of dtype d, and every output from a state of R has dtype d *)
+Definition closed_ok (c : cfg) (r : slrow) (d : dtype) (R : list absval) : bool :=
+  forallb (fun st => forallb (fun tr =>
+     forallb (fun res => negb (bound res) || (vmem (res_state res) R && out_is d (res_out res)))
+             (sl_step1 c r (Np d KArray) tr st)) [true; false]) R.
+
+Definition sl_row_ok (c : cfg) (r : slrow) (d : dtype) : bool :=
+  let S0 := sl_init_states c d d r in
+  if forallb (good_state d) S0 then
+    let R := reach_iter 4 c r (Np d KArray) S0 in
+    closed_ok c r d R && forallb (good_state d) R && vsubset S0 R
+  else true.     (* the layer's buffers are not of dtype d (a float32 layer, d = float64): mixed, not constrained *)
+
 (* every possible value is a NumPy value of dtype d (an empty set = the call raises) *)
 Definition all_dtype (d : dtype) (s : list absval) : bool :=
   forallb (fun v => match v with Np d' _ => dtype_eqb d d' | _ => false end) s.
